@@ -62,20 +62,7 @@ func NetConn(ctx context.Context, c *Conn, msgType MessageType) net.Conn {
 	nc.writeTimer = time.AfterFunc(math.MaxInt64, func() {
 		nc.writeDeadlineMu.Lock()
 		defer nc.writeDeadlineMu.Unlock()
-		if !deadlinePassed(nc.writeDeadline) {
-			// The deadline was reset after the timer fired.
-			return
-		}
-		if !nc.writeMu.tryLock() {
-			// If the lock cannot be acquired, then there is an
-			// active write goroutine and so we should cancel the context.
-			nc.writeCancel()
-			return
-		}
-		defer nc.writeMu.unlock()
-
-		// Prevents future writes from writing until the deadline is reset.
-		atomic.StoreInt64(&nc.writeExpired, 1)
+		nc.writeDeadlineFired()
 	})
 	if !nc.writeTimer.Stop() {
 		<-nc.writeTimer.C
@@ -84,20 +71,7 @@ func NetConn(ctx context.Context, c *Conn, msgType MessageType) net.Conn {
 	nc.readTimer = time.AfterFunc(math.MaxInt64, func() {
 		nc.readDeadlineMu.Lock()
 		defer nc.readDeadlineMu.Unlock()
-		if !deadlinePassed(nc.readDeadline) {
-			// The deadline was reset after the timer fired.
-			return
-		}
-		if !nc.readMu.tryLock() {
-			// If the lock cannot be acquired, then there is an
-			// active read goroutine and so we should cancel the context.
-			nc.readCancel()
-			return
-		}
-		defer nc.readMu.unlock()
-
-		// Prevents future reads from reading until the deadline is reset.
-		atomic.StoreInt64(&nc.readExpired, 1)
+		nc.readDeadlineFired()
 	})
 	if !nc.readTimer.Stop() {
 		<-nc.readTimer.C
@@ -137,6 +111,44 @@ type netConn struct {
 }
 
 var _ net.Conn = &netConn{}
+
+// writeDeadlineFired acts on the write deadline once it has passed.
+// writeDeadlineMu must be held.
+func (nc *netConn) writeDeadlineFired() {
+	if !deadlinePassed(nc.writeDeadline) {
+		// The deadline was reset after the timer fired.
+		return
+	}
+	if !nc.writeMu.tryLock() {
+		// If the lock cannot be acquired, then there is an
+		// active write goroutine and so we should cancel the context.
+		nc.writeCancel()
+		return
+	}
+	defer nc.writeMu.unlock()
+
+	// Prevents future writes from writing until the deadline is reset.
+	atomic.StoreInt64(&nc.writeExpired, 1)
+}
+
+// readDeadlineFired acts on the read deadline once it has passed.
+// readDeadlineMu must be held.
+func (nc *netConn) readDeadlineFired() {
+	if !deadlinePassed(nc.readDeadline) {
+		// The deadline was reset after the timer fired.
+		return
+	}
+	if !nc.readMu.tryLock() {
+		// If the lock cannot be acquired, then there is an
+		// active read goroutine and so we should cancel the context.
+		nc.readCancel()
+		return
+	}
+	defer nc.readMu.unlock()
+
+	// Prevents future reads from reading until the deadline is reset.
+	atomic.StoreInt64(&nc.readExpired, 1)
+}
 
 func (nc *netConn) Close() error {
 	nc.writeTimer.Stop()
@@ -236,12 +248,15 @@ func (nc *netConn) SetWriteDeadline(t time.Time) error {
 	atomic.StoreInt64(&nc.writeExpired, 0)
 	if t.IsZero() {
 		nc.writeTimer.Stop()
-	} else {
-		dur := time.Until(t)
-		if dur <= 0 {
-			dur = 1
-		}
+	} else if dur := time.Until(t); dur > 0 {
 		nc.writeTimer.Reset(dur)
+	} else {
+		// The deadline has passed already. Whether a call is active is decided
+		// here and now: on the timer's goroutine the caller's next call, begun
+		// before the timer got to run, would pass for one that was active when
+		// the deadline fired, and the connection would be closed under it.
+		nc.writeTimer.Stop()
+		nc.writeDeadlineFired()
 	}
 	return nil
 }
@@ -253,12 +268,15 @@ func (nc *netConn) SetReadDeadline(t time.Time) error {
 	atomic.StoreInt64(&nc.readExpired, 0)
 	if t.IsZero() {
 		nc.readTimer.Stop()
-	} else {
-		dur := time.Until(t)
-		if dur <= 0 {
-			dur = 1
-		}
+	} else if dur := time.Until(t); dur > 0 {
 		nc.readTimer.Reset(dur)
+	} else {
+		// The deadline has passed already. Whether a call is active is decided
+		// here and now: on the timer's goroutine the caller's next call, begun
+		// before the timer got to run, would pass for one that was active when
+		// the deadline fired, and the connection would be closed under it.
+		nc.readTimer.Stop()
+		nc.readDeadlineFired()
 	}
 	return nil
 }
